@@ -472,9 +472,9 @@ func genFaultCase(r *rand.Rand, cfg Cfg) Case {
 		}
 		switch r.Intn(12) {
 		case 9:
-			op = "diff 2 0"
+			op = pick(r, []string{"diff 2 0", "diffcr 2 0"})
 		case 10:
-			op = "diff 0 2"
+			op = pick(r, []string{"diff 0 2", "diffcr 0 2"})
 		case 11:
 			mv := ""
 			for j := 0; j < 1+r.Intn(6); j++ {
